@@ -13,7 +13,7 @@ for l in open('/verif/properties.jsonl'):
     for m in sorted(glob.glob(f'/verif/seeded/{P}-*/meta.json')):
         tried.append('- ' + json.load(open(m))['breaks'])
     txt = tmpl.replace('@P@', P).replace('@TITLE@', d['title']).replace('@STATEMENT@', d['statement']) \
-              .replace('@QUANT@', d['quantifier']).replace('@WT@', wt + P).replace('@OUT@', f'{out}/{P}') \
+              .replace('@QUANT@', d['quantifier']['text'] if isinstance(d['quantifier'], dict) else d['quantifier']).replace('@WT@', wt + P).replace('@OUT@', f'{out}/{P}') \
               .replace('@TRIED@', '\n'.join(tried)).replace('@GUIDANCE@', guid)
     os.makedirs(f'{out}/{P}', exist_ok=True)
     open(f'{out}/{P}/PROMPT.txt', 'w').write(txt)
